@@ -31,5 +31,6 @@ f23bfa6 C08 F13
 6e97195 C17 F11
 45141a4 C17 F17
 2e8c588 C17 F18
+96d3cfc C16 F20
 LIST
 git -C /repo worktree remove --force $WT
